@@ -36,10 +36,6 @@ class LostTargetIsDroppedAsAStartingFailure:
     def loop0_iter_lost_target_leaves(self, k, command, invalidated_identifiers):
         return implies(command.identifier in invalidated_identifiers, command not in self.current_jobs)
 
-    def loop0_iter_surviving_target_stays(self, k, command, invalidated_identifiers, iter_old):
-        return implies(command.identifier not in invalidated_identifiers and command in iter_old.self.current_jobs,
-                       command in self.current_jobs)
-
     def loop0_iter_required_failure_wipes_the_plan(self, k, command, invalidated_identifiers):
         return implies(isinstance(self, ApplicationStartJobs) and command.identifier in invalidated_identifiers
                        and wipes_plan(command.process), len(self.planned_jobs) == 0)
